@@ -24,7 +24,10 @@ type Explorer struct {
 	// Check judges one execution; it returns an outcome label and, if the execution
 	// violates the property, a failure description.
 	Check   func(e *Exec) (outcome string, fail string)
-	MaxExec int // stop after that many executions (0 = no limit); Capped tells
+	// NoConfirm: do not re-run a failing schedule in this process (used when the process itself is the unit
+	// that is re-run: a failure that depends on the process being fresh cannot repeat inside it)
+	NoConfirm bool
+	MaxExec   int // stop after that many executions (0 = no limit); Capped tells
 	Stop    func() bool
 
 	Executions int
@@ -136,6 +139,11 @@ func (x *Explorer) explore(prefix []int) bool {
 	outcome, fail := x.Check(e)
 	x.Outcomes[outcome]++
 	if fail != "" {
+		if x.NoConfirm {
+			x.Fail = fail
+			x.FailTrace = append([]int{}, e.Trace...)
+			return false
+		}
 		// determinism: the same schedule must give the same verdict
 		e2 := Run(e.Trace, x.Opt, x.Body)
 		o2, f2 := x.Check(e2)
